@@ -21,7 +21,8 @@ static TState g_pool[POOL];
 static int g_alloc, g_free, g_over, g_iter;
 static int g_nextid = 10;
 static double g_delta, g_lambda;
-static double g_step[KMAX + 2], g_dto[KMAX + 2], g_d0;   // symbolic distances handed out by the environment
+static double g_step[KMAX + 2], g_dto[KMAX + 2], g_d0;   // symbolic distances handed out by the environment (between PROJECTED states)
+static double g_step_pre[KMAX + 2], g_dto_pre[KMAX + 2];  // unrelated values for a scratch state that has not been projected (yet): the ambient step leaves the manifold
 static int g_scratch_iter;
 struct Wrapped : ob::StateSpace       // the ambient space
 {
@@ -62,8 +63,8 @@ struct PSS : ob::ProjectedStateSpace
     double distance(const ob::State *a, const ob::State *b) const override
     {
         const Inner *x = &static_cast<const TState *>(a)->inner, *y = &static_cast<const TState *>(b)->inner;
-        if (y->id == 2) return x->id == 1 ? g_d0 : g_dto[g_scratch_iter];   // distance to the target
-        return g_step[g_scratch_iter];                                                                                                   // step length previous -> scratch
+        if (y->id == 2) return x->id == 1 ? g_d0 : (x->on ? g_dto[g_scratch_iter] : g_dto_pre[g_scratch_iter]);   // distance to the target
+        return y->on ? g_step[g_scratch_iter] : g_step_pre[g_scratch_iter];                                                                                                   // step length previous -> scratch
     }
 };
 VT_DECLARE_VTABLE(PSS, "_ZTV3PSS")
@@ -90,7 +91,7 @@ static PSS *setup()
     g_delta = vt_double_in(1e-6, 10.0); g_lambda = vt_double_in(1.0, 10.0);
     p->delta_ = g_delta; p->lambda_ = g_lambda;
     g_d0 = vt_double_in(0.0, 1e6);
-    for (int i = 0; i <= KMAX + 1; ++i) { g_step[i] = vt_double_in(0.0, 1e6); g_dto[i] = vt_double_in(0.0, 1e6); }
+    for (int i = 0; i <= KMAX + 1; ++i) { g_step[i] = vt_double_in(0.0, 1e6); g_dto[i] = vt_double_in(0.0, 1e6); g_step_pre[i] = vt_double_in(0.0, 1e6); g_dto_pre[i] = vt_double_in(0.0, 1e6); }
     return p;
 }
 extern "C" void harness_discrete_geodesic()
